@@ -268,14 +268,14 @@ fn run_case<S: Sut>(id: &str, disc: u64, cmds: &[Vec<u64>], t: &mut Out) {
             }
             _ => {}
         }
-        let mut ra = Args { v: &c[2..], i: 3 };
-        reps[r].reads(&mut ra, t);
         t.line(&format!(
             "(obs {} (know{}) {})",
             r,
             know[r].iter().map(|d| format!(" {}", d)).collect::<String>(),
             reps[r].sx()
         ));
+        let mut ra = Args { v: &c[2..], i: 3 };
+        reps[r].reads(&mut ra, t);
         if !tainted {
             // the canonical state of this knowledge set: its ops delivered in causal (generation) order
             let mut canon = S::new();
@@ -312,7 +312,22 @@ fn gen_script(ty: &str, seed: u64, cases: u64, len: u64, stream: &str) {
             _ if order_free => rng.below(3),
             _ => rng.below(2),
         };
+        // a quarter of the structured cases start with a directed prelude: a classic
+        // scenario (overtaking removes sharing one context, a member present on both sides
+        // but removed by a peer that saw a subset of its witnesses, multi-valued registers
+        // meeting in a merge, ...) with randomised roles, followed by a random suffix
+        let prelude = if stream != "malformed" && rng.below(4) == 0 { directed_prelude(ty, &mut rng) } else { None };
+        let disc = match &prelude { Some((d, _)) => *d, None => disc };
         writeln!(w, "case {}-{} {} {}", seed, c, ty, disc).unwrap();
+        if let Some((_, cmds)) = &prelude {
+            for cmd in cmds {
+                let mut full = cmd.clone();
+                while full.len() < 12 {
+                    full.push(rng.next() >> 11);
+                }
+                writeln!(w, "{}", full.iter().map(|x| x.to_string()).collect::<Vec<_>>().join(" ")).unwrap();
+            }
+        }
         let n = 2 + rng.below(len.max(3) - 1);
         for _ in 0..n {
             let k = rng.below(100);
@@ -340,6 +355,84 @@ fn gen_script(ty: &str, seed: u64, cases: u64, len: u64, stream: &str) {
             writeln!(w, "{} {} {}", kind, r, args.join(" ")).unwrap();
         }
         writeln!(w, "end").unwrap();
+    }
+}
+
+/// Directed preludes (structured stream).  Each command is [kind, replica, args...]; the
+/// args select the API call exactly as the interpreters in types.rs consume them.
+fn directed_prelude(ty: &str, rng: &mut Rng) -> Option<(u64, Vec<Vec<u64>>)> {
+    // a random assignment of the three initial replicas to the roles A, B, C
+    let perm = match rng.below(6) {
+        0 => [0, 1, 2],
+        1 => [0, 2, 1],
+        2 => [1, 0, 2],
+        3 => [1, 2, 0],
+        4 => [2, 0, 1],
+        _ => [2, 1, 0],
+    };
+    let (ra, rb, rc) = (perm[0], perm[1], perm[2]);
+    let m0 = rng.below(3);
+    let m1 = (m0 + 1 + rng.below(2)) % 3;
+    let nodup = 1; // first DELIVER arg: 0 = re-deliver a known op, otherwise an unknown one
+    match ty {
+        "orswot" => Some(match rng.below(3) {
+            // two removes sharing one context overtake the add they cover
+            0 => (1, vec![
+                vec![K_EDIT, ra, m0, 3, m1, m1, 1],     // add_all [m0, m1]           (op 0)
+                vec![K_DELIVER, rb, nodup, 0],           // B learns it
+                vec![K_EDIT, rb, m0, 4],                 // B: rm m0 with contains ctx (op 1)
+                vec![K_EDIT, rb, m1, 4],                 // B: rm m1, same context      (op 2)
+                vec![K_DELIVER, rc, nodup, 1],           // C gets op 1 before the add
+                vec![K_DELIVER, rc, nodup, 1],           // C gets op 2
+                vec![K_DELIVER, rc, nodup, 0],           // C gets the add
+            ]),
+            // a member with two concurrent witnesses, removed by a peer that saw only one
+            1 => (1, vec![
+                vec![K_EDIT, ra, m0, 0],                 // A: add m0                   (op 0)
+                vec![K_EDIT, rb, m0, 0],                 // B: add m0 concurrently      (op 1)
+                vec![K_DELIVER, rc, nodup, 0],           // C learns A's add only
+                vec![K_EDIT, rc, m0, 4],                 // C: rm m0                     (op 2)
+                vec![K_DELIVER, ra, nodup, 0],           // A learns B's add
+                vec![K_MERGE, ra, rc],                   // A <- C
+                vec![K_MERGE, rc, rb],                   // C <- B
+            ]),
+            // the same, the removes meeting in merges of states holding pending removes
+            _ => (1, vec![
+                vec![K_EDIT, ra, m0, 3, m1, m1, 1],
+                vec![K_DELIVER, rb, nodup, 0],
+                vec![K_EDIT, rb, m0, 8],                 // B: rm m0 with the whole-clock context
+                vec![K_EDIT, rb, m1, 8],                 // B: rm m1, same context
+                vec![K_DELIVER, rc, nodup, 1],
+                vec![K_SPAWN, 0, 3],                     // a fresh replica D
+                vec![K_DELIVER, 3, nodup, 2],            // D gets op 2 only (per-actor: needs op 1 first, else no-op)
+                vec![K_MERGE, rc, 3],
+                vec![K_MERGE, rc, ra],
+            ]),
+        }),
+        "mvreg" => Some(match rng.below(2) {
+            // two concurrent values meet a third replica, then merges in both directions
+            0 => (2, vec![
+                vec![K_EDIT, ra, m0, 0],
+                vec![K_EDIT, rb, m1, 1],
+                vec![K_DELIVER, rc, nodup, 0],
+                vec![K_DELIVER, rc, nodup, 0],
+                vec![K_MERGE, ra, rc],
+                vec![K_MERGE, rb, rc],
+                vec![K_EDIT, ra, m1, 0],
+            ]),
+            // concurrent values whose clocks share an actor, then a write from that read
+            _ => (2, vec![
+                vec![K_EDIT, ra, m0, 0],                 // a1                          (op 0)
+                vec![K_DELIVER, rb, nodup, 0],
+                vec![K_EDIT, rb, m1, 0],                 // b  {A1,B1}                  (op 1)
+                vec![K_EDIT, ra, m1, 1],                 // a2 {A2}                     (op 2)
+                vec![K_DELIVER, rc, nodup, 0],
+                vec![K_DELIVER, rc, nodup, 0],
+                vec![K_DELIVER, rc, nodup, 0],
+                vec![K_EDIT, rc, m0, 0],                 // c resolves
+            ]),
+        }),
+        _ => None,
     }
 }
 
